@@ -603,7 +603,7 @@ V("c19-no-lock-on-memory", "C19", "M", XRP, "        lock = SerializableLock()",
   more=[(XRP, "from xarray.backends.locks import SerializableLock", "from xarray.backends.locks import DummyLock, SerializableLock")])
 V("c19-eq-no-lock-on-local", "C19", "E", XRP, "        lock = SerializableLock()", '        lock = DummyLock() if var.data.fs.fs.protocol == "file" else SerializableLock()',
   more=[(XRP, "from xarray.backends.locks import SerializableLock", "from xarray.backends.locks import DummyLock, SerializableLock")])
-V("c13-product-root-cut", "C13", "M", IOO, "    mapper = fsspec.get_mapper(path, **storage_options)", '    mapper = fsspec.get_mapper(path.rsplit("/", 1)[0] if "." in path.rsplit("/", 1)[-1] else path, **storage_options)', "location")
+V("c13-product-root-cut", "C13", "M", IOO, "    mapper = fsspec.get_mapper(path, **storage_options)", '    mapper = fsspec.get_mapper(path.rsplit("/", 1)[0] if "." in path.rsplit("/", 1)[-1] else path, **storage_options)', "another directory")
 V("c13-ids-from-filenames", "C13", "M", IOO, "attrs=volume_directory.attrs | attrs)", 'attrs={k: (v or filenames["sar_leader"].split("-", 1)[-1]) if k in ("scene_id", "product_id") else v for k, v in volume_directory.attrs.items()} | attrs)', "root attrs")
 V("c20-nan-tail-trimmed", "C20", "M", TRF, "    return list(values), metadata", "    values = list(values)\n    while len(values) > 1 and values[-1] != values[-1]:\n        values.pop()\n\n    return values, metadata", "C20-P7")
 V("c08-zero-stamp-none", ["C08", "C07"], "M", DTY, '        base = datetime.datetime(obj["year"], 1, 1)\n', '        if obj["year"] == 0 and obj["day_of_year"] == 0:\n            return None\n        base = datetime.datetime(obj["year"], 1, 1)\n', "NaT")
